@@ -201,13 +201,13 @@ theorem onlyKey_setStore (k : Key) (n : Node) (s : Store) (h : ∀ k', k' ≠ k 
     OnlyKey k n { n with store := s } := ⟨⟨rfl, rfl, rfl, rfl⟩, h, fun _ _ => rfl⟩
 
 theorem onlyKey_setItem (k : Key) (n : Node) (it : Item) : OnlyKey k n (n.setItem k it) :=
-  onlyKey_setStore k n _ (fun k' hk => Store.get_set_ne _ _ _ _ hk)
+  onlyKey_setStore k n _ (fun _ hk => Store.get_set_ne _ _ _ _ hk)
 
 theorem onlyKey_erase (k : Key) (n : Node) : OnlyKey k n { n with store := n.store.erase k } :=
-  onlyKey_setStore k n _ (fun k' hk => Store.get_erase_ne _ _ _ hk)
+  onlyKey_setStore k n _ (fun _ hk => Store.get_erase_ne _ _ _ hk)
 
 theorem onlyKey_spray (k : Key) (n : Node) (m : SprayMeta) : OnlyKey k n { n with spray := setMeta n.spray k m } :=
-  ⟨⟨rfl, rfl, rfl, rfl⟩, fun _ _ => rfl, fun k' hk => lookupMeta_setMeta_ne _ _ _ _ hk⟩
+  ⟨⟨rfl, rfl, rfl, rfl⟩, fun _ _ => rfl, fun _ hk => lookupMeta_setMeta_ne _ _ _ _ hk⟩
 
 theorem onlyKey_attempts (k : Key) (n : Node) (a : List ((Nat × Nat) × Nat)) :
     OnlyKey k n { n with attempts := a } :=
